@@ -57,6 +57,13 @@ CHECKS = {
             "precedence table and compared with the tree the generator intended. Held on the trees observed.",
             "Trusted: mf/exprmodel.py (precedence table as stated in the property); numbers compared by value.",
             "DESIGN.md 2 C10"),
+    "C11": ("exception-family contract on the parse boundary + sys.monitoring logical step counter and CPU-time envelope "
+            "calibrated on the corpus in the same run",
+            "Structure-aware token mutations of corpus/generated documents, vocabulary token soups, unterminated constructs, every "
+            "block type at the root and long repetitive inputs (quick <= 200 kB, thorough <= 1 MB). 'Terminates promptly' is restated "
+            "as bounded logical steps and CPU per input; held on the inputs observed.",
+            "Trusted: envelope constants derived from the corpus calibration; Lark's exception hierarchy.",
+            "DESIGN.md 2 C11"),
     "C13": ("relation over four recorded parse events (include_position x include_comments, through loads/open/load) and their "
             "print events; 'apart from comment text' decided by an independent scanner",
             "All corpus files and generated documents with random and placed comments; stripped results must equal the plain load "
